@@ -64,6 +64,18 @@ T = {
  "C13-D": ("C13","current_byteorder matches the raw cell, so a tagged zero in `big?` means big-endian","`u8 ! big?` (a tagged 0 stored into the byte-order variable) followed by a multi-byte read or pack"),
  "C17-C": ("C17","token_filename compares source text instead of identity (re-introduces the defect repaired in eba4a94)","the same source text submitted more than once on one interpreter, error in the later copy"),
  "C17-D": ("C17","the build-error path overwrites a run-time location recorded while a meta block ran","a meta block whose failure happens inside a called definition or a loop body"),
+ "C04-C": ("C04","insert gets a byte-splice fast path whose index is computed before detach() rebases the value","byte-aligned slice with start >= 8, whole-byte length, byte-aligned inserted string and insertion point"),
+ "C04-D": ("C04","detach's copy path becomes a whole-byte copy that masks with end%8 of the old buffer instead of len%8","a value with start%8 = s != 0 and end%8 = e with 0 < e <= s and 1-bits among its last bits, then detach / invert / append / insert"),
+ "C05-C": ("C05","Iter8 rewritten: the short last group is cut from one byte only","width not a multiple of 8 at a bit offset where the last group crosses a byte boundary (12-bit field at offsets 5..7)"),
+ "C05-D": ("C05","iNle! calls the ambient-byte-order packer (copy-paste from iN!)","big mode selected earlier, then a signed explicit-little pack word (i16le! / i32le! / i64le!)"),
+ "C07-C": ("C07",">bitstr gathers plain bytes into a shared run that is flushed at the wrong moment for nested vectors","a nested vector containing a bit-string element followed, inside that same nested vector, by plain byte ints or strings"),
+ "C07-D": ("C07","append's byte-copy fast path taken for whole-byte tails that start off a byte boundary (copies backing bytes)","head ending on a byte boundary + a raw field of whole-byte length that is a slice starting at a non-aligned offset of a larger buffer, re-packed with >bitstr or emit"),
+ "C09-C": ("C09","operand dispatch matches the popped right operand itself instead of its value, so a tagged right operand is a type error","any binary arithmetic / comparison word whose right operand carries tags (e.g. a field read from binary input)"),
+ "C09-D": ("C09",">int guards with is_normal() || == 0.0 and so rejects subnormal reals","`>int` on a subnormal real"),
+ "C16-C": ("C16","`e`/`E` marks a literal as real before the leading-zero-hex rule is applied","an unprefixed leading-zero hex literal containing the digit e (`01e2`, `0e1`, `0fe`)"),
+ "C16-D": ("C16","Iter8 rewritten with a 16-bit window that ORs the second byte only for full groups","printing a bit-string that starts at a non-zero bit offset of its buffer and whose final short group crosses a byte boundary (equality itself walks the same groups)"),
+ "C18-C": ("C18","the encoders flatten a vector argument piece by piece, requiring every bit-string piece to be whole bytes",">bitstr-acceptable vectors whose bit-string pieces are not byte multiples but add up to whole bytes (`[ |1| |234| ]`)"),
+ "C18-D": ("C18","base32> / base32hex> upper-case the text with the full Unicode mapping before decoding","invalid text containing a non-ASCII letter whose upper-case mapping is an alphabet letter (U+0131, U+017F, ligatures)"),
 }
 res = collections.defaultdict(dict)
 p=os.path.join(ROOT,'RESULTS.tsv')
